@@ -170,6 +170,13 @@ class VObj(Value):
 
 
 @dataclass
+class VRecordType(Value):
+    """a collections.namedtuple class bound at module level: calling it builds a record (a VObj whose attributes are the fields, in order)"""
+    name: str
+    fields: tuple
+
+
+@dataclass
 class VContraction(Value):
     """opt_einsum.contract_expression(spec, *shapes): a callable that contracts its operands by `spec`."""
     spec: str
